@@ -359,11 +359,13 @@ func genObserve(r *gen.Rand, i int) wire.Op {
 		return wire.Op{Op: "OutputDocuments"}
 	case 3, 4:
 		w := &wire.WriterFault{}
-		switch r.Intn(3) {
+		switch r.Intn(4) {
 		case 0:
 			w = &wire.WriterFault{Kind: "fail_at", K: r.Intn(20)}
 		case 1:
 			w = &wire.WriterFault{Kind: "short", K: r.Intn(20)}
+		case 2:
+			w = &wire.WriterFault{Kind: r.Pick("eagain_once", "eintr_once"), K: r.Intn(20)}
 		}
 		if r.Chance(0.2) {
 			format = ""
@@ -414,6 +416,19 @@ func c19Request(c *C19Case, run int64, cwd string) (*wire.Request, []int) {
 				fo.Path = "o/fresh-" + strings.TrimPrefix(fo.Path, "o/")
 			}
 			f.Ops = append(f.Ops, fo)
+			if op.Op == "OutputToWriter" || op.Op == "OutputToFile" {
+				// reference for what a sink must receive: the bytes Output
+				// returns for the same format (documented defaults: "" is
+				// json-pretty for a writer, the path's extension for a file)
+				format := op.Format
+				if format == "" && op.Op == "OutputToFile" {
+					format = strings.TrimPrefix(filepath.Ext(op.Path), ".")
+				}
+				if format == "" {
+					format = "json-pretty"
+				}
+				f.Ops = append(f.Ops, wire.Op{Op: "Output", Format: format})
+			}
 			freshOf[i] = 2 + len(fresh)
 			fresh = append(fresh, f)
 		}
@@ -481,6 +496,18 @@ func judgeC19(c *C19Case, tasks []taskOutcome, freshOf []int) c19Verdict {
 				}
 				if pr.HasOuts != fr.HasOuts || outsString(pr.Outs) != outsString(fr.Outs) {
 					return c19Verdict{Clause: "output-differs-from-fresh-parser", Op: i, Got: short(outsString(pr.Outs), 600), Want: short(outsString(fr.Outs), 600)}
+				}
+			}
+			if (op.Op == "OutputToWriter" || op.Op == "OutputToFile") && fi+1 < len(F.Ops) && i < len(P.Ops) && F.CrashAt < 0 && P.CrashAt < 0 {
+				ref, pr := F.Ops[fi+1], P.Ops[i]
+				switch {
+				case ref.Outcome == "ok" && po == "ok" && pr.Bytes != nil && bytesOf(pr) != bytesOf(ref):
+					return c19Verdict{Clause: "sink-received-other-bytes-than-output-returns", Op: i, Got: short(bytesOf(pr), 600), Want: short(bytesOf(ref), 600)}
+				case ref.Outcome == "ok" && po == "err" && pr.Bytes != nil && !strings.HasPrefix(bytesOf(ref), strings.TrimRight(bytesOf(pr), "\ufffd")):
+					// (a cut inside a multi-byte character arrives here as replacement characters)
+					return c19Verdict{Clause: "failed-sink-received-bytes-that-are-no-prefix-of-the-output", Op: i, Got: short(bytesOf(pr), 600), Want: short(bytesOf(ref), 600)}
+				case ref.Outcome == "err" && po == "ok":
+					return c19Verdict{Clause: "sink-output-succeeded-although-output-fails", Op: i, Got: short(bytesOf(pr), 300), Want: ref.Err}
 				}
 			}
 			outputsSeen++
